@@ -21,6 +21,12 @@ def outputs(o):
 
 def make_trace(seed, long=False):
     r = random.Random(seed)
+    if long == "huge" or long == "huge5000":
+        # as many stored entries as a default run keeps (thousands): formats that split long traces into parts show only here
+        spec = wp.spec_from_seed(seed, boundary=False, chains=2, finite_clock=False, clustered=False, n_mut=2)
+        spec["options"].update(num_iters=1100 if long == "huge" else 5000, thin=1, num_particles=2, grid_size=11, burnin=1, subtree_update_prob=0.0,
+                               outlier_prob=0.0, num_samples_data_point=1, num_samples_prune_regraph=0, proposal="bootstrap")
+        return spec, wp.run_pipeline(spec)
     spec = wp.spec_from_seed(seed, boundary=False, finite_clock=False)
     spec["options"]["num_iters"] = r.choice([1, 2, 4, 8]) if not long else r.choice([40, 45, 70])
     if long:
@@ -183,10 +189,32 @@ def rlimit_task(item):
     return {"fired": fired, "problems": problems[:2]}
 
 
+def huge_task(item):
+    """Sampled (not exhaustive) prefixes of a trace with thousands of entries per chain."""
+    seed, kind, ks = item
+    spec, h = make_trace(seed, long=kind)
+    img = h["image"]
+    full = [outputs(wp.run_summaries(img, rd)) for rd in READERS]
+    problems = []
+    calls = 0
+    for k in ks:
+        if k >= len(img):
+            continue
+        for rd, ref in zip(READERS, full):
+            o = wp.run_summaries(img[:k], rd)
+            calls += 1
+            if o["ok"] and outputs(o) != ref:
+                problems.append(({"sub": "partial_trace_accepted", "reader": rd[0], "trace": "thousands_of_entries"},
+                                 "%s succeeded on the first %d of %d bytes of a trace with %d entries per chain, with outputs that differ from the complete trace's" % (
+                                     rd[0], k, len(img), len(h["results"][0]["trace"])), {"seed": seed, "k": k, "huge": kind}))
+    return {"calls": calls, "problems": problems[:2], "len": len(img)}
+
+
 def failed_worker_task(seed):
     spec = wp.spec_from_seed(seed, boundary=False, chains=2, finite_clock=False)
     spec["options"]["num_iters"] = 2
     spec["schedule"]["fail_chain"] = random.Random(seed).randrange(2)
+    spec["schedule"]["fail_kind"] = random.Random(seed ^ 5).choice(["custom", "memory", "broken_pool", "oserror", "killed"])
     h = wp.run_pipeline(spec)
     problems = []
     if h["exception"] is None:
@@ -248,7 +276,20 @@ def run(ctx):
         ctx.fault("fs.rlimit_kill@k", out["fired"]["rlimit_kill"])
         for key, detail, rep in out["problems"]:
             ctx.violation(key, detail, dict(rep, kind="rlimit", key=key))
-    fres = runner.pmap(failed_worker_task, [ctx.sub(("wf", i)) for i in range(6 if quick else 60)])
+    hkind = "huge" if quick else "huge5000"
+    hseed = ctx.sub("huge")
+    hspec, hh = make_trace(hseed, long=hkind)
+    HL = len(hh["image"])
+    hks = sorted(set(list(range(0, 64)) + list(range(max(0, HL - 600), HL)) + list(range(64, HL, 23 if quick else 41)) +
+                     [b + dlt for b in range(4096, HL, 4096) for dlt in (-1, 0, 1)]))
+    hitems = [(hseed, hkind, hks[i:i + 150]) for i in range(0, len(hks), 150)]
+    hcalls = 0
+    for out in runner.pmap(huge_task, hitems, timeout=1500):
+        hcalls += out["calls"]
+        for key, detail, rep in out["problems"]:
+            ctx.violation(key, detail, dict(rep, kind="huge", key=key))
+    ctx.cov["trace_with_thousands_of_entries"] = {"bytes": HL, "entries_per_chain": len(hh["results"][0]["trace"]), "prefixes_sampled": len(hks), "reader_calls": hcalls}
+    fres = runner.pmap(failed_worker_task, [ctx.sub(("wf", i)) for i in range(12 if quick else 100)])
     for out in fres:
         ctx.fault("sched.worker_fail", out["fired"])
         for key, detail, rep in out["problems"]:
@@ -279,6 +320,8 @@ def replay(ctx, obj):
         out = prefix_task((obj["seed"], obj["k"], obj["k"] + 1, obj.get("long", False)))
     elif obj["kind"] == "writer":
         out = writer_task((obj["seed"], [obj["k"]], obj.get("long", False)))
+    elif obj["kind"] == "huge":
+        out = huge_task((obj["seed"], obj["huge"], [obj["k"]]))
     elif obj["kind"] == "rlimit":
         out = rlimit_task((obj["seed"], [obj["k"]], obj.get("long", False)))
     else:
